@@ -148,6 +148,11 @@ impl Prop for C06 {
     fn evidence_extra(&self, stats: &Stats) -> Json {
         world_b_extra(stats)
     }
+    fn abort_needs_fresh_confirmation(&self) -> bool {
+        // shuttle drops lazy statics at the end of each execution; a reference to one of them kept
+        // in a real static would dangle in the NEXT execution of the same worker only
+        true
+    }
     fn rule(&self) -> String {
         "One run = one shuttle execution = one simulated process lifetime: 1-4 tasks (16 in the large stratum; thorough: a volume execution of 4 tasks x 10^5 calls) each compiling 1-3 programs that call unique-id() / string.unique-id() 0-50 times in a loop and math.random() / math.random($limit) / random($limit) with limits drawn log-uniformly from 1..2^53 plus the boundaries 1, 2, 2^53-1, 2^53, under a seeded Random or PCT scheduler with the CALL_ID mutex and its lazy initialisation as scheduling points. Oracles over all outputs of the execution: identifiers pairwise distinct and valid CSS identifiers; floor(random()) prints 0; random($l) prints an integer in [1, $l]. Non-trivial = >=2 tasks contending for a lock; distinct = distinct interleaving signatures.".into()
     }
